@@ -251,11 +251,12 @@ func (m *machine) registerIntrinsics() {
 		if c == nil {
 			panic(engineError("sync.Cond not created by NewCond"))
 		}
-		i.lockerCall(fr, c.locker, "Unlock")
-		c.waiters = append(c.waiters, i.cur)
+		// as sync.Cond: register as a waiter BEFORE releasing the lock, so that a
+		// Signal issued between the unlock and the park is not lost
 		me := i.cur
+		c.waiters = append(c.waiters, me)
+		i.lockerCall(fr, c.locker, "Unlock")
 		for {
-			i.park(fr, "cond")
 			still := false
 			for _, w := range c.waiters {
 				if w == me {
@@ -265,6 +266,7 @@ func (m *machine) registerIntrinsics() {
 			if !still {
 				break
 			}
+			i.park(fr, "cond")
 		}
 		i.lockerCall(fr, c.locker, "Lock")
 		return nil
